@@ -160,7 +160,9 @@ def run(ctx):
     texts += [(r["sql"], {"src": "optimizer"}) for r in producers.corpus_optimizer() if r["file"] not in ("annotate_functions", "simplify") and not r["dialect"]]
     for s, meta in texts:
         for d in dialects:
-            if gram.h(s, d) % frac == ctx.seed % frac:
+            # the base dialect carries two more clauses (SameTree, FormatKept): every statement form and a quarter of the rest, always
+            stmt = meta.get("t", {}).get("k") == "stmt"
+            if gram.h(s, d) % frac == ctx.seed % frac or (not d and (stmt or gram.h(s, "b") % 4 == ctx.seed % 4)):
                 work.append({"sql": s, "dialect": d, **meta})
     for r in producers.corpus_probes():
         work.append({"sql": r["sql"], "dialect": r["dialect"], "src": "probe"})
